@@ -110,11 +110,16 @@ func init() {
 	allShapes = append(allShapes, shapes.Catalogue...)
 	allShapes = append(allShapes, extra...)
 	allShapes = append(allShapes, stateful...)
+	allShapes = append(allShapes, scripts...)
 	for i, s := range allShapes {
 		if _, dup := shapeIdx[s.Name]; dup {
 			panic("duplicate shape " + s.Name)
 		}
 		shapeIdx[s.Name] = i
+		if isScript(s.Name) {
+			progs["script/"+s.Name] = goja.MustCompile("script_"+s.Name+".js", s.Src, false)
+			continue
+		}
 		progs["run/"+s.Name] = goja.MustCompile("run_"+s.Name+".js", "main_"+s.Name+"()", false)
 		progs["nested/"+s.Name] = goja.MustCompile("nested_"+s.Name+".js", "callback(main_"+s.Name+")", false)
 		progs["rerun/"+s.Name] = goja.MustCompile("rerun_"+s.Name+".js", "runProg('"+s.Name+"')", false)
@@ -160,7 +165,9 @@ var setupProgs []*goja.Program
 func init() {
 	setupProgs = append(setupProgs, goja.MustCompile("helpers.js", helperSrc, false))
 	for _, s := range allShapes {
-		setupProgs = append(setupProgs, goja.MustCompile("shape_"+s.Name+".js", s.Src+"\nvar main_"+s.Name+" = main;", false))
+		if !isScript(s.Name) {
+			setupProgs = append(setupProgs, goja.MustCompile("shape_"+s.Name+".js", s.Src+"\nvar main_"+s.Name+" = main;", false))
+		}
 	}
 }
 
@@ -342,10 +349,12 @@ var entries = []string{
 	"resolver", // resolve function of Runtime.NewPromise; the shape runs as a promise reaction job
 }
 
+// one more entry kind, "script": top-level RunProgram of a shape that IS top-level code (see scripts in shapes.go).
+
 // boundary names the Go-boundary wrapper an entry kind goes through (signature component).
 func boundary(entry string) string {
 	switch entry {
-	case "run", "nested", "rerun":
+	case "run", "nested", "rerun", "script":
 		return "RunProgram"
 	case "call", "ctor", "export", "resolver":
 		return "Callable"
@@ -449,7 +458,10 @@ func idleOf(r *goja.Runtime) goja.VerifIdleState {
 // exec performs one API call (entry kind applied to a shape) under the given faults.
 func (e *env) exec(entry, shape string, faults ...Fault) *outcome {
 	r := e.R
-	o := e.ent(shape)
+	var o *entryObjs
+	if entry != "script" {
+		o = e.ent(shape)
+	}
 	e.Log = e.Log[:0]
 	e.faults = faults
 	e.logN, e.natN, e.fired, e.firedAt = 0, 0, 0, 0
@@ -481,7 +493,7 @@ func (e *env) exec(entry, shape string, faults ...Fault) *outcome {
 	func() {
 		defer func() { pan = recover() }()
 		switch entry {
-		case "run", "nested", "rerun":
+		case "run", "nested", "rerun", "script":
 			v, err = r.RunProgram(progs[entry+"/"+shape])
 		case "call":
 			v, err = o.call(goja.Undefined())
